@@ -51,6 +51,29 @@ theorem discFail_cases (w : World) (ctx : StepCtx) :
 @[simp] theorem discFail_fut (w : World) (ctx : StepCtx) : (w.discFail ctx).fut = w.fut := by
   rcases discFail_cases w ctx with ⟨h, _⟩ | ⟨h, _⟩ <;> rw [h] <;> rfl
 
+@[simp] theorem discDone_zero (w : World) : w.discDone 0 = w := rfl
+@[simp] theorem discDone_one (w : World) : w.discDone 1 = w := rfl
+@[simp] theorem discDone_two (w : World) : w.discDone 2 = w.handleDisconnect := rfl
+theorem discDone_cases (w : World) (which : Nat) :
+    (w.discDone which = w ∧ (which = 0 ∨ which = 1)) ∨
+    (w.discDone which = w.handleDisconnect ∧ which ≠ 0 ∧ which ≠ 1) := by
+  unfold World.discDone
+  split
+  · exact .inl ⟨rfl, .inl ‹_›⟩
+  · split
+    · exact .inl ⟨rfl, .inr ‹_›⟩
+    · exact .inr ⟨rfl, ‹_›, ‹_›⟩
+@[simp] theorem discDone_wakes (w : World) (k : Nat) : (w.discDone k).wakes = w.wakes := by
+  rcases discDone_cases w k with ⟨h, _⟩ | ⟨h, _⟩ <;> rw [h] <;> rfl
+@[simp] theorem discDone_out (w : World) (k : Nat) : (w.discDone k).out = w.out := by
+  rcases discDone_cases w k with ⟨h, _⟩ | ⟨h, _⟩ <;> rw [h] <;> rfl
+@[simp] theorem discDone_slot (w : World) (k : Nat) : (w.discDone k).slot = w.slot := by
+  rcases discDone_cases w k with ⟨h, _⟩ | ⟨h, _⟩ <;> rw [h] <;> rfl
+@[simp] theorem discDone_nets (w : World) (k : Nat) : (w.discDone k).nets = w.nets := by
+  rcases discDone_cases w k with ⟨h, _⟩ | ⟨h, _⟩ <;> rw [h] <;> rfl
+@[simp] theorem discDone_fut (w : World) (k : Nat) : (w.discDone k).fut = w.fut := by
+  rcases discDone_cases w k with ⟨h, _⟩ | ⟨h, _⟩ <;> rw [h] <;> rfl
+
 theorem driveEnter_dead (w : World) (o : Outer) (hl : w.live = false) :
     driveEnter pollFuel w o = w.finishErr (outerName o) .disconnected := by
   show driveEnter (3999 + 1) w o = _
